@@ -216,7 +216,7 @@ func checkC05(p *Prog, r *Result, tier string) {
 	r.Technique = "conversion rule N1 over resource/plugins/cpumem (type-checked AST), argument/field provenance rules on GetCPUPlans and doAllocByCPU"
 	r.Explanation = "N1 every conversion of a non-constant float to an integer in the cpumem plugin either rounds to nearest (math.Round) or carries no product/quotient: the request->pieces conversion therefore rounds to the nearest piece; " +
 		"DIST a full-core plan takes each of its cores once: in the loop that pops the cores of one plan from the heap nothing is pushed back onto that heap (a core with pieces left is pushed back only after the plan is complete), and every popped core is written into the plan with the full share; " +
-		"SRC1 every planner call in GetCPUPlans receives the CPURequest field of the same request object the caller passed; SRC2 in doAllocByCPU the recorded WorkloadResource takes CPURequest from that request object and CPUMap/NUMANode from the plan of the same loop iteration, and the engine parameters take the same plan's CPUMap: the recorded amount and the pieces handed out come from one request."
+		"SRC1 every planner call in GetCPUPlans receives the CPURequest field of the same request object the caller passed; SRC2 in doAllocByCPU the recorded WorkloadResource takes CPURequest from that request object and CPUMap/NUMANode from the plan of the same loop iteration, and the engine parameters take the same plan's CPUMap: the recorded amount and the pieces handed out come from one request; SRC3 the same in every function of the plugin that plans and records (re-allocation included): CPURequest/CPULimit of the recorded resource are fields of the request object given to GetCPUPlans."
 	r.NotCovered = "that the full/fragment split hands out exactly those pieces on every node state (numeric, not decided); requests not expressible in the share base's precision"
 	r.Assumptions = []string{"IEEE-754 double arithmetic; math.Round rounds half away from zero", "A1 no reflection/unsafe"}
 	r.min("N1", 1)
@@ -224,6 +224,58 @@ func checkC05(p *Prog, r *Result, tier string) {
 	r.min("SRC2", 3)
 	r.min("DIST", 1)
 	checkDistinctCoresPerPlan(p, r)
+	// SRC3: wherever the plugin plans pieces for a request and records a workload resource in the same function, the
+	// recorded CPU amounts are fields of the very request object the planner was given
+	r.min("SRC3", 2)
+	for _, fn := range p.sortedFuncs("resource/plugins/cpumem") {
+		if fn.Body == nil || fn.Lit != nil || strings.Contains(fn.Name, "/schedule") {
+			continue
+		}
+		var planned types.Object
+		fn.inspectBody(func(n ast.Node) bool {
+			if c, ok := n.(*ast.CallExpr); ok && fn.Callee(c) != nil && objName(fn.Callee(c)) == "resource/plugins/cpumem/schedule.GetCPUPlans" && len(c.Args) == 5 {
+				planned = fn.objOf(c.Args[4])
+			}
+			return true
+		})
+		if planned == nil {
+			continue
+		}
+		fn.inspectBody(func(n ast.Node) bool {
+			cl, ok := n.(*ast.CompositeLit)
+			if !ok {
+				return true
+			}
+			if t := fn.typeOf(cl); t == nil || len(cl.Elts) == 0 {
+				return true
+			} else if nt, ok := t.(*types.Named); !ok || nt.Obj().Name() != "WorkloadResource" {
+				return true
+			}
+			key := fn.Name + " / the CPU amounts recorded are those of the request the pieces were planned for"
+			why := ""
+			seen := 0
+			for _, el := range cl.Elts {
+				kv, ok := el.(*ast.KeyValueExpr)
+				if !ok {
+					continue
+				}
+				k := exprStr(kv.Key)
+				if k != "CPURequest" && k != "CPULimit" {
+					continue
+				}
+				seen++
+				sel, ok := unparen(kv.Value).(*ast.SelectorExpr)
+				if !ok || sel.Sel.Name != k || fn.objOf(sel.X) != planned {
+					why = k + " of the recorded resource is `" + exprStr(kv.Value) + "`, not the " + k + " of `" + planned.Name() + "`, the (validated) request that was handed to the planner: the amount on record and the pieces given can differ (validation raises a bound workload's request to its limit)"
+				}
+			}
+			if seen < 2 && why == "" {
+				why = "the recorded resource does not set CPURequest and CPULimit"
+			}
+			r.check2(why, "SRC3", key, p.pos(cl), "CPURequest/CPULimit: <planned request>.CPURequest/.CPULimit")
+			return true
+		})
+	}
 	checkN1(p, r, []string{"resource/plugins/cpumem"}, map[string]string{"resource/plugins/cpumem/schedule.(*host).getCPUPlans": "CPU request -> pieces"})
 
 	// SRC1: GetCPUPlans -> doGetCPUPlans(.., req.CPURequest, ..)
